@@ -824,7 +824,7 @@ def attribute(vf, res):
         if not spans:
             tool.append(msg)
             continue
-        is_proof = any(msg.startswith(p) or p in msg for p in PROOF_FAIL[:11]) or 'not satisfied' in msg or 'assertion' in msg
+        is_proof = any(msg.startswith(p) or p in msg for p in PROOF_FAIL[:11]) or 'not satisfied' in msg or 'assertion' in msg or 'unable to prove' in msg
         if 'rlimit' in msg.lower() or 'resource limit' in msg.lower():
             tool.append(msg + ' @' + str(spans[0].get('line_start')))
             continue
